@@ -64,6 +64,10 @@ type Spec struct {
 	Real, Stub  []string
 	Assumptions []string
 	FaultKinds  []string // counters that are fault kinds (reported as faults_fired)
+	// HangIsInfra: a run of this engine that does not return is reported as an infrastructure failure (exit 2), not as a
+	// violation. For engines that serialise several real goroutines: a goroutine that blocks for real (or spins) while it
+	// holds the baton is something the serialised execution cannot schedule, not evidence against the code under test.
+	HangIsInfra bool
 }
 
 var Registry = map[string]*Spec{}
